@@ -66,6 +66,7 @@ type Engine struct {
 	sentinelIDs   map[string]int
 	keepScripts   bool
 	orphans       []string
+	undecided     map[string]string // function -> why its contract no longer attaches
 	extraEvidence map[string]interface{}
 }
 
@@ -85,7 +86,7 @@ func NewEngine(l *Loaded) *Engine {
 		L: l, contracts: map[string]*FuncContract{}, pures: map[string]*PureFunc{}, pureMeths: map[string]*PureFunc{},
 		lemmas: map[string]*Lemma{}, consts: map[string]*SExpr{}, pkgOfFC: map[*FuncContract]string{},
 		siteOrds: map[*ssa.Function]map[ssa.Instruction]siteInfo{},
-		obligs: map[string]*Oblig{}, loopCache: map[*ssa.Function]*loopInfo{}, snapshots: map[string]*State{},
+		obligs:   map[string]*Oblig{}, loopCache: map[*ssa.Function]*loopInfo{}, snapshots: map[string]*State{},
 		strConsts: map[string]int{}, strByRef: map[string]string{}, typeTags: map[string]int{}, funcRefs: map[*ssa.Function]int{},
 		unmodelled: map[string]bool{}, assumptions: map[string]bool{}, usedTrusted: map[string]bool{}, usedLemmas: map[string]bool{},
 		shared: map[string]bool{}, loopUsed: map[string]bool{}, assertUsed: map[string]bool{}, recApps: map[string]bool{},
@@ -774,10 +775,16 @@ func (E *Engine) VerifyFunction(fn *ssa.Function, fc *FuncContract) {
 					panic(r)
 				}
 			}
-			st := x.newState()
-			x.dry = false
-			x.topFrame = nil
-			E.addOblig(x, st, "engine", "error", FalseT, msg, "", nil)
+			if ee, ok := r.(evalError); ok && staleContract(ee.msg) {
+				// the contract names something the function no longer has (a local, a field, an iterator): the
+				// function is UNDECIDED on this tree, not violated - none of its obligations is reported
+				E.markUndecided(shortPkg(fnPkgPath(fn))+"."+relName(fn), msg)
+			} else {
+				st := x.newState()
+				x.dry = false
+				x.topFrame = nil
+				E.addOblig(x, st, "engine", "error", FalseT, msg, "", nil)
+			}
 		}
 		rep := FuncReport{Name: shortPkg(fnPkgPath(fn)) + "." + relName(fn), Where: x.pos(fn.Pos()), Paths: x.npaths + 1,
 			Obligs: len(E.order) - before, Contract: fmt.Sprintf("%s:%d", fc.File, fc.Line), SSAHash: ssaHash(fn)}
@@ -1104,4 +1111,26 @@ func deadReturn(fc *FuncContract, ord string) bool {
 		}
 	}
 	return false
+}
+
+// staleContract: the evaluation error says that the contract refers to something that is not (any longer) in the
+// code - as opposed to a mistake inside the specification files themselves.
+func staleContract(msg string) bool {
+	for _, p := range []string{"unknown identifier", "no field ", "selector ", "cannot index", "rangepos(): no range", "visited(): the function needs",
+		"deref: ", "apply: ", "typehas: ", "same(): different shapes", "cannot evaluate "} {
+		if strings.HasPrefix(msg, p) {
+			return true
+		}
+	}
+	return false
+}
+
+// markUndecided: nothing is claimed about this function on this tree.
+func (E *Engine) markUndecided(fname, why string) {
+	if E.undecided == nil {
+		E.undecided = map[string]string{}
+	}
+	if _, ok := E.undecided[fname]; !ok {
+		E.undecided[fname] = why
+	}
 }
